@@ -731,7 +731,7 @@ pub fn run(ctx: &Ctx) -> i32 {
         let agg = std::sync::Mutex::new((0u64, 0u64, std::collections::BTreeSet::new()));
         let stats = e1::explore(
             if cfg.bystanders > 0 { bound.min(4) - 1 } else if cfg.strategy == Strategy::Fifo { bound } else { bound - 1 },
-            if cfg.bystanders > 0 { max_exec.min(3_000_000) } else { max_exec },
+            if cfg.bystanders > 0 { max_exec.min(1_000_000) } else { max_exec },
             if ctx.tier == Tier::Quick { 16 } else { 64 },
             |prefix| {
                 let r = common::catch(|| run_one(&cfg, prefix));
@@ -796,7 +796,7 @@ pub fn run(ctx: &Ctx) -> i32 {
     };
     let mut ev = Evidence::new("model_checking");
     if let Some(s) = &ids {
-        if s.skips_observed == 0 || s.wraps_observed == 0 {
+        if report.violations.is_empty() && (s.skips_observed == 0 || s.wraps_observed == 0) {
             eprintln!("MACHINERY: vacuous identifier sweep (skips {}, wraps {})", s.skips_observed, s.wraps_observed);
             return 2;
         }
@@ -820,7 +820,7 @@ pub fn run(ctx: &Ctx) -> i32 {
         ev.coverage.remove("rule");
         ev.set("rule", json!(format!("the wire log of every execution (every schedule with at most {} non-default adversary decisions, all C09 configurations plus a pipelining client against an acknowledge-then-reply handler) is checked: datagrams with equal (sender, session id, message counter) must be byte-identical, and the first transmissions of a sender on a session must carry strictly increasing counters", bound)));
     }
-    if classes.len() < 2 || retx == 0 {
+    if report.violations.is_empty() && (classes.len() < 2 || retx == 0) {
         eprintln!("MACHINERY: vacuous C09 run (classes {:?}, retransmissions {})", classes, retx);
         return 2;
     }
